@@ -247,6 +247,12 @@ func (a *AsyncAdapter) Close() error {
 	_ = a.ioc.UnsetReadWrite(&a.slot)
 	a.ioc.Deregister(&a.slot)
 
+	// The descriptor belongs to the adapted object. Closing the number behind its back would make the object's own
+	// Close - or the finalizer the runtime attaches to it - close that number a second time, when it may already have
+	// been given to somebody else.
+	if closer, ok := a.rw.(io.Closer); ok {
+		return closer.Close()
+	}
 	return syscall.Close(a.slot.Fd)
 }
 
